@@ -351,6 +351,8 @@ def while_true_to_test(tree: ast.Module) -> int:
 # nested procedures called as statements -> their bodies in place
 
 def _contains_return(st) -> bool:
+    if isinstance(st, (ast.FunctionDef, ast.AsyncFunctionDef, ast.ClassDef)):
+        return False                              # the returns of a nested definition are its own
     stack = [st]
     while stack:
         n = stack.pop()
@@ -967,3 +969,404 @@ def worklist_to_recursion(tree: ast.Module) -> list:
             fn.body = new_body + [final]
             ast.fix_missing_locations(fn)
     return early
+
+
+def match_to_if(tree: ast.AST) -> int:
+    """`match s: case 'a': .. case C(): .. case C(attr=x): .. case _: ..` is the if / elif chain on `s == 'a'` /
+    `isinstance(s, C)` (astpaths.match_as_ifs: value, singleton, wildcard / capture, or- and class patterns with keyword
+    sub-patterns; positional destructuring stays a `match`, which PyEval compiles itself).  Every rule that reads dispatch chains
+    then sees one spelling.  -> number of statements rewritten"""
+    from .astpaths import match_as_ifs
+    n = 0
+
+    class T(ast.NodeTransformer):
+        def visit_Match(self, node):
+            nonlocal n
+            self.generic_visit(node)
+            chain = match_as_ifs(node)
+            if chain is None or not chain:
+                return node
+            n += 1
+            return chain
+
+    T().visit(tree)
+    return n
+
+
+# ----------------------------------------------------------------------------------------------------------------------------
+# `v = A if C else None` .. `if v is None: X else: Y(v)`   ->   `if not C: X else: Y(A)`
+
+def optional_flag_to_test(tree: ast.Module) -> int:
+    """A local bound once to `A if C else None` (or `None if C else A`) and then only tested against None or read where it is
+    known not to be None restates the test C under another name: `v is None` is `not C`, `v is not None` is `C`, and `v` read
+    under that knowledge is `A`.  A is a name / attribute chain and C a pure test, none of whose names is re-bound while `v` is
+    live (all reads of `v` follow the binding in the same block).  -> number of locals dissolved"""
+    count = 0
+
+    def chain(e):
+        while isinstance(e, ast.Attribute):
+            e = e.value
+        return isinstance(e, ast.Name)
+
+    def pure_test(e):
+        if isinstance(e, ast.BoolOp):
+            return all(pure_test(v) for v in e.values)
+        if isinstance(e, ast.UnaryOp) and isinstance(e.op, ast.Not):
+            return pure_test(e.operand)
+        if isinstance(e, ast.Compare):
+            return all(chain(x) or isinstance(x, ast.Constant) for x in [e.left] + e.comparators)
+        if isinstance(e, ast.Call) and isinstance(e.func, ast.Name) and e.func.id == 'isinstance' and len(e.args) == 2:
+            return chain(e.args[0])
+        return chain(e) or isinstance(e, ast.Constant)
+
+    def none_test(e, v):
+        """-> True for `v is None`, False for `v is not None`, else None"""
+        if isinstance(e, ast.Compare) and len(e.ops) == 1 and isinstance(e.left, ast.Name) and e.left.id == v \
+                and isinstance(e.comparators[0], ast.Constant) and e.comparators[0].value is None:
+            if isinstance(e.ops[0], ast.Is):
+                return True
+            if isinstance(e.ops[0], ast.IsNot):
+                return False
+        return None
+
+    for fn in [x for x in ast.walk(tree) if isinstance(x, (ast.FunctionDef, ast.AsyncFunctionDef))]:
+        again = True
+        while again:
+            again = False
+            names = [n for n in ast.walk(fn) if isinstance(n, ast.Name)]
+            for node in ast.walk(fn):
+                for fld in ('body', 'orelse', 'finalbody'):
+                    blk = getattr(node, fld, None)
+                    if not (isinstance(blk, list) and blk and isinstance(blk[0], ast.stmt)):
+                        continue
+                    for i, st in enumerate(blk):
+                        tgt = st.targets[0] if isinstance(st, ast.Assign) and len(st.targets) == 1 else (st.target if isinstance(st, ast.AnnAssign) else None)
+                        val = getattr(st, 'value', None)
+                        if not (isinstance(tgt, ast.Name) and isinstance(val, ast.IfExp)):
+                            continue
+                        v = tgt.id
+                        if isinstance(val.orelse, ast.Constant) and val.orelse.value is None:
+                            cond, a = val.test, val.body
+                        elif isinstance(val.body, ast.Constant) and val.body.value is None:
+                            cond, a = ast.UnaryOp(op=ast.Not(), operand=val.test), val.orelse
+                        else:
+                            continue
+                        if not (chain(a) and pure_test(val.test)):
+                            continue
+                        if sum(1 for n in names if n.id == v and isinstance(n.ctx, (ast.Store, ast.Del))) != 1:
+                            continue
+                        rest = blk[i + 1:]
+                        inside = {id(n) for r in rest for n in ast.walk(r)}
+                        loads = [n for n in names if n.id == v and isinstance(n.ctx, ast.Load)]
+                        if not loads or any(id(n) not in inside for n in loads):
+                            continue
+                        used = {n.id for e in (a, val.test) for n in ast.walk(e) if isinstance(n, ast.Name)}
+                        if any(isinstance(n, ast.Name) and n.id in used and isinstance(n.ctx, (ast.Store, ast.Del)) for r in rest for n in ast.walk(r)):
+                            continue
+                        parents = {id(ch): p for r in rest for p in ast.walk(r) for ch in ast.iter_child_nodes(p)}
+
+                        def known_not_none(n):
+                            cur = n
+                            while id(cur) in parents:
+                                par = parents[id(cur)]
+                                if isinstance(par, ast.If) and not any(cur is t for t in ast.walk(par.test)):
+                                    in_body = any(cur is s_ for s_ in par.body)
+                                    tests = par.test.values if isinstance(par.test, ast.BoolOp) and isinstance(par.test.op, ast.And) else [par.test]
+                                    if in_body and any(none_test(t, v) is False for t in tests):
+                                        return True
+                                    if not in_body and none_test(par.test, v) is True:
+                                        return True
+                                cur = par
+                            return False
+
+                        ok = True
+                        for n in loads:
+                            par = parents.get(id(n))
+                            if par is not None and none_test(par, v) is not None:
+                                continue
+                            if not known_not_none(n):
+                                ok = False
+                                break
+                        if not ok:
+                            continue
+
+                        class R(ast.NodeTransformer):
+                            def visit_Compare(self, e):
+                                t = none_test(e, v)
+                                if t is None:
+                                    return self.generic_visit(e)
+                                c = copy.deepcopy(cond)
+                                if t:
+                                    c = c.operand if isinstance(c, ast.UnaryOp) and isinstance(c.op, ast.Not) else ast.UnaryOp(op=ast.Not(), operand=c)
+                                return ast.copy_location(c, e)
+
+                            def visit_Name(self, e):
+                                if e.id == v and isinstance(e.ctx, ast.Load):
+                                    return ast.copy_location(copy.deepcopy(a), e)
+                                return e
+
+                        new_rest = [ast.fix_missing_locations(R().visit(r)) for r in rest]
+                        blk[i:] = new_rest
+                        count += 1
+                        again = True
+                        break
+                    if again:
+                        break
+                if again:
+                    break
+    return count
+
+
+# ----------------------------------------------------------------------------------------------------------------------------
+# lambda lifting undone: a module-level helper used by one function, which hands it its own fixed locals, is that function's closure
+
+def nest_lifted_helpers(tree: ast.Module) -> int:
+    """A module-level function G all of whose uses are calls inside ONE other function F (module-level, a method, or nested in
+    one; the innermost function containing every use), and which receives at some
+    parameter position always the same plain name x of F - a parameter of F or a local bound exactly once by a top-level statement
+    of F before the first such call - is the closure over x that lambda lifting turns into a parameter.  G is moved into F (after
+    the binding of the captured names) with those parameters dropped and their uses renamed to x; the calls lose the arguments.
+    Only private helpers (`_name`): for a public function "all uses are in F" cannot be established from its module alone.
+    Rules that read F's local procedures then see one spelling.  -> number of helpers nested"""
+    count = 0
+    for _round in range(20):
+        funcs = {n.name: n for n in tree.body if isinstance(n, ast.FunctionDef)}
+        moved = False
+        for gname, g in funcs.items():
+            if g.decorator_list or g.args.vararg or g.args.kwarg or g.args.kwonlyargs or g.args.defaults or g.args.posonlyargs:
+                continue
+            if not gname.startswith('_') or gname.startswith('__'):
+                continue
+            if any(isinstance(n, (ast.Yield, ast.YieldFrom, ast.Global, ast.Nonlocal)) for n in ast.walk(g)):
+                continue
+            if any(isinstance(n, ast.Name) and n.id == gname for n in ast.walk(g)):
+                continue                                   # recursive
+            refs = [n for n in ast.walk(tree) if isinstance(n, ast.Name) and n.id == gname]
+            if not refs:
+                continue
+            # F: the innermost function (module-level, method or nested) that contains every use
+            in_g = {id(n) for n in ast.walk(g)}
+            cands = [f for f in ast.walk(tree) if isinstance(f, ast.FunctionDef) and id(f) not in in_g
+                     and all(id(r) in {id(n) for n in ast.walk(f)} for r in refs)]
+            cands = [f for f in cands if not any(f2 is not f and any(f2 is n for n in ast.walk(f)) for f2 in cands)]
+            if len(cands) != 1:
+                continue
+            f = cands[0]
+            calls = [n for n in ast.walk(f) if isinstance(n, ast.Call) and isinstance(n.func, ast.Name) and n.func.id == gname]
+            if len(calls) != len(refs) or any(c.keywords or len(c.args) != len(g.args.args) or any(isinstance(a, ast.Starred) for a in c.args)
+                                                for c in calls):
+                continue
+            # also referenced from a string annotation / __all__ etc.: leave alone
+            params = [a.arg for a in g.args.args]
+            f_params = {a.arg for a in f.args.args + f.args.kwonlyargs}
+            top_index = {}
+            for i, st in enumerate(f.body):
+                for n in ast.walk(st):
+                    top_index[id(n)] = i
+            first_call = min(top_index[id(c)] for c in calls)
+            captured = {}                                   # position -> (name of F, index of its binding statement or -1)
+            for j, pname in enumerate(params):
+                args = [c.args[j] for c in calls]
+                if not all(isinstance(a, ast.Name) for a in args) or len({a.id for a in args}) != 1:
+                    continue
+                x = args[0].id
+                stores = [n for n in ast.walk(f) if isinstance(n, ast.Name) and n.id == x and isinstance(n.ctx, (ast.Store, ast.Del))]
+                # a nested def / lambda parameter named x would shadow: be strict
+                shadows = [n for n in ast.walk(f) if isinstance(n, ast.arg) and n.arg == x and n not in f.args.args + f.args.kwonlyargs]
+                if shadows:
+                    continue
+                if x in f_params and not stores:
+                    captured[j] = (x, -1)
+                elif x not in f_params and len(stores) == 1:
+                    bi = top_index[id(stores[0])]
+                    st = f.body[bi]
+                    tgt = st.targets[0] if isinstance(st, ast.Assign) and len(st.targets) == 1 else (st.target if isinstance(st, ast.AnnAssign) else None)
+                    if tgt is stores[0] and bi < first_call:
+                        captured[j] = (x, bi)
+            if not captured:
+                continue
+            # renaming must not capture: x may not be bound inside G nor be another (kept) parameter of G
+            ok = True
+            for j, (x, _bi) in captured.items():
+                if x != params[j]:
+                    if x in params or any(isinstance(n, ast.Name) and n.id == x and isinstance(n.ctx, (ast.Store, ast.Del)) for n in ast.walk(g)) \
+                            or any(isinstance(n, ast.arg) and n.arg == x for n in ast.walk(g)):
+                        ok = False
+                if any(isinstance(n, ast.Name) and n.id == params[j] and isinstance(n.ctx, (ast.Store, ast.Del)) for n in ast.walk(g)):
+                    ok = False
+            if not ok:
+                continue
+            ren = {params[j]: x for j, (x, _bi) in captured.items() if params[j] != x}
+            for n in ast.walk(g):
+                if isinstance(n, ast.Name) and n.id in ren:
+                    n.id = ren[n.id]
+            g.args.args = [a for j, a in enumerate(g.args.args) if j not in captured]
+            for c in calls:
+                c.args = [a for j, a in enumerate(c.args) if j not in captured]
+            tree.body.remove(g)
+            at = max(bi for _x, bi in captured.values()) + 1
+            if at == 0 and f.body and isinstance(f.body[0], ast.Expr) and isinstance(f.body[0].value, ast.Constant):
+                at = 1
+            f.body.insert(at, g)
+            count += 1
+            moved = True
+            break
+        if not moved:
+            break
+    return count
+
+
+# ----------------------------------------------------------------------------------------------------------------------------
+# `def g(): for t in IT: yield E` .. `for x in g(): B`   ->   `for t in IT: x = E; B`
+# `for v in iter(f, None): B`                            ->   `while (v := f()) is not None: B`
+
+def inline_simple_generators(tree: ast.Module) -> int:
+    """A local parameterless generator whose body is one loop yielding one expression per element, consumed by exactly one
+    `for x in g():`, is that loop with `x = E` at the head of the consumer's body (generators are lazy: producer and consumer
+    alternate exactly like this).  The producer's loop variable must not occur elsewhere in the enclosing function.
+    `iter(f, None)` is the stream of `f()` up to the first None.  -> number of rewrites"""
+    count = 0
+    for fn in [x for x in ast.walk(tree) if isinstance(x, (ast.FunctionDef, ast.AsyncFunctionDef))]:
+        for g in [n for n in fn.body if isinstance(n, ast.FunctionDef)]:
+            if g.args.args or g.args.vararg or g.args.kwarg or g.args.kwonlyargs or g.decorator_list:
+                continue
+            body = [st for st in g.body if not (isinstance(st, ast.Expr) and isinstance(st.value, ast.Constant))]
+            if len(body) != 1 or not isinstance(body[0], ast.For) or body[0].orelse or not isinstance(body[0].target, ast.Name):
+                continue
+            lp = body[0]
+            if len(lp.body) != 1 or not (isinstance(lp.body[0], ast.Expr) and isinstance(lp.body[0].value, ast.Yield) and lp.body[0].value.value is not None):
+                continue
+            if any(isinstance(n, (ast.Yield, ast.YieldFrom)) for n in ast.walk(lp.body[0].value.value)):
+                continue
+            refs = [n for n in ast.walk(fn) if isinstance(n, ast.Name) and n.id == g.name]
+            uses = [n for n in ast.walk(fn) if isinstance(n, ast.For) and isinstance(n.iter, ast.Call) and isinstance(n.iter.func, ast.Name)
+                    and n.iter.func.id == g.name and not n.iter.args and not n.iter.keywords and not n.orelse and isinstance(n.target, ast.Name)]
+            if len(refs) != 1 or len(uses) != 1:
+                continue
+            use = uses[0]
+            t = lp.target.id
+            in_g = {id(n) for n in ast.walk(g)}
+            if any(isinstance(n, ast.Name) and n.id == t and id(n) not in in_g for n in ast.walk(fn)):
+                continue
+            assign = ast.Assign(targets=[ast.Name(id=use.target.id, ctx=ast.Store())], value=lp.body[0].value.value)
+            ast.copy_location(assign, use)
+            use.target = ast.Name(id=t, ctx=ast.Store())
+            use.iter = lp.iter
+            use.body = [assign] + use.body
+            ast.fix_missing_locations(use)
+            fn.body.remove(g)
+            count += 1
+    for node in ast.walk(tree):
+        for fld in ('body', 'orelse', 'finalbody'):
+            blk = getattr(node, fld, None)
+            if not (isinstance(blk, list) and blk and isinstance(blk[0], ast.stmt)):
+                continue
+            for i, st in enumerate(blk):
+                if isinstance(st, ast.For) and not st.orelse and isinstance(st.target, ast.Name) and isinstance(st.iter, ast.Call) \
+                        and isinstance(st.iter.func, ast.Name) and st.iter.func.id == 'iter' and len(st.iter.args) == 2 and not st.iter.keywords \
+                        and isinstance(st.iter.args[1], ast.Constant) and st.iter.args[1].value is None \
+                        and isinstance(st.iter.args[0], (ast.Name, ast.Attribute)):
+                    test = ast.Compare(left=ast.NamedExpr(target=ast.Name(id=st.target.id, ctx=ast.Store()),
+                                                          value=ast.Call(func=st.iter.args[0], args=[], keywords=[])),
+                                       ops=[ast.IsNot()], comparators=[ast.Constant(None)])
+                    w = ast.While(test=test, body=st.body, orelse=[])
+                    ast.copy_location(w, st)
+                    blk[i] = ast.fix_missing_locations(w)
+                    count += 1
+    return count
+
+
+# ----------------------------------------------------------------------------------------------------------------------------
+# `out.extend(gen(a, b))` with `def gen(p, q): ... yield E ...`   ->   the body of gen in place, `out.append(E)` for `yield E`
+
+def extend_by_generator_to_appends(tree: ast.Module) -> int:
+    """Extending a list by a call of a module-level generator function appends what it yields, in order, and nothing else
+    happens in between (the generator runs to exhaustion inside `extend`): the statement is the generator's body with each
+    `yield E` read as `out.append(E)`, its parameters replaced by the (plain name) arguments and a bare `return` restructured
+    into if / else.  Locals of the generator that clash with names of the caller are renamed apart.  -> number of sites"""
+    import copy
+    count = 0
+    gens = {}
+    for g in tree.body:
+        if isinstance(g, ast.FunctionDef) and not g.decorator_list and not (g.args.vararg or g.args.kwarg or g.args.kwonlyargs or g.args.defaults):
+            inner_defs = {id(n) for h in ast.walk(g) if isinstance(h, (ast.FunctionDef, ast.Lambda)) and h is not g for n in ast.walk(h)}
+            ys = [n for n in ast.walk(g) if isinstance(n, (ast.Yield, ast.YieldFrom)) and id(n) not in inner_defs]
+            if not ys or any(isinstance(y, ast.YieldFrom) for y in ys):
+                continue
+            stmts_y = [st for st in ast.walk(g) if isinstance(st, ast.Expr) and isinstance(st.value, ast.Yield) and st.value.value is not None]
+            if len(stmts_y) != len(ys):
+                continue                              # a yield used as an expression
+            if any(isinstance(n, ast.Return) and n.value is not None and id(n) not in inner_defs for n in ast.walk(g)):
+                continue
+            if any(isinstance(n, ast.Name) and n.id == g.name for n in ast.walk(g)):
+                continue
+            gens[g.name] = g
+    if not gens:
+        return 0
+    for fn in [x for x in ast.walk(tree) if isinstance(x, ast.FunctionDef)]:
+        if fn.name in gens:
+            continue
+        for holder in ast.walk(fn):
+            for fld in ('body', 'orelse', 'finalbody'):
+                blk = getattr(holder, fld, None)
+                if not (isinstance(blk, list) and blk and isinstance(blk[0], ast.stmt)):
+                    continue
+                i = 0
+                while i < len(blk):
+                    st = blk[i]
+                    i += 1
+                    if not (isinstance(st, ast.Expr) and isinstance(st.value, ast.Call) and isinstance(st.value.func, ast.Attribute)
+                            and st.value.func.attr == 'extend' and isinstance(st.value.func.value, ast.Name) and len(st.value.args) == 1
+                            and isinstance(st.value.args[0], ast.Call) and isinstance(st.value.args[0].func, ast.Name)
+                            and st.value.args[0].func.id in gens and not st.value.args[0].keywords):
+                        continue
+                    out = st.value.func.value.id
+                    call = st.value.args[0]
+                    g = gens[call.func.id]
+                    params = [a.arg for a in g.args.args]
+                    if len(params) != len(call.args) or not all(isinstance(a, ast.Name) for a in call.args):
+                        continue
+                    stored = {n.id for n in ast.walk(g) if isinstance(n, ast.Name) and isinstance(n.ctx, (ast.Store, ast.Del))} | \
+                             {h.name for h in ast.walk(g) if isinstance(h, ast.FunctionDef) and h is not g}
+                    if stored & set(params) or out in stored:
+                        continue
+                    body = _eliminate_returns([copy.deepcopy(x) for x in g.body if not (isinstance(x, ast.Expr) and isinstance(x.value, ast.Constant))])
+                    if body is None:
+                        continue
+                    caller_names = {n.id for n in ast.walk(fn) if isinstance(n, ast.Name)} | {a.arg for a in fn.args.args}
+                    ren = {v: f'{v}__{g.name}' for v in stored if v in caller_names}
+                    sub = {p: a.id for p, a in zip(params, call.args)}
+
+                    class R(ast.NodeTransformer):
+                        def visit_Name(self, n):
+                            if n.id in sub and isinstance(n.ctx, ast.Load):
+                                n.id = sub[n.id]
+                            elif n.id in ren:
+                                n.id = ren[n.id]
+                            return n
+
+                        def visit_FunctionDef(self, n):
+                            if n.name in ren:
+                                n.name = ren[n.name]
+                            if any(a.arg in sub or a.arg in ren for a in n.args.args):
+                                return n              # shadowing parameter: leave the inner function alone
+                            self.generic_visit(n)
+                            return n
+
+                        def visit_Expr(self, n):
+                            self.generic_visit(n)
+                            if isinstance(n.value, ast.Yield):
+                                c = ast.Call(func=ast.Attribute(value=ast.Name(id=out, ctx=ast.Load()), attr='append', ctx=ast.Load()),
+                                             args=[n.value.value], keywords=[])
+                                return ast.copy_location(ast.Expr(value=c), n)
+                            return n
+                    new = [R().visit(x) for x in body]
+                    for x in new:
+                        for n in ast.walk(x):
+                            if hasattr(n, 'lineno'):
+                                n.lineno = n.end_lineno = st.lineno
+                        ast.fix_missing_locations(x)
+                    blk[i - 1:i] = new
+                    i += len(new) - 1
+                    count += 1
+    return count
